@@ -47,6 +47,72 @@ theorem tailBytes_length (p : Padder) (hv : Valid p) (st : PadState) (m : List N
     simp only [rOf, kOf] at *
     omega
 
+theorem modelTail_length_base (p : Padder) (b1 b2 r : Nat) :
+    (modelTail p b1 r).length = (modelTail p b2 r).length := by
+  cases hs : p.scheme <;> simp [modelTail, hs]
+
+/-- the tail bytes hold exactly the r message bits and the pad bits -/
+theorem tailBytes_bits (p : Padder) (hv : Valid p) (st : PadState) (m : List Nat) (L : Option Nat)
+    (hL : effLen m L ≤ 8 * m.length) (hbg : L ≠ none → BitGranular p.scheme) :
+    8 * (tailBytes p st m L).length = rOf p m L + (modelTail p 0 (rOf p m L)).length := by
+  obtain ⟨e, h1, h2, h3, h4, h5, h6⟩ := piece_facts p hv m _ hL
+  obtain ⟨hlen1, hlen2⟩ := tailBytes_length p hv st m L hL hbg
+  have hB := hv.size_eq
+  by_cases hno : p.scheme = .no
+  · have : (modelTail p 0 (rOf p m L)).length = 0 := by simp [modelTail, hno]
+    rw [this, (hlen2 hno).2]; rfl
+  · have hnone : ¬ BitGranular p.scheme → L = none := by
+      intro hb
+      cases L with
+      | none => rfl
+      | some a => exact absurd (hbg (by simp)) hb
+    have ht := modelTail_total p hv 0 (rOf p m L) h2
+      (by
+        intro hb
+        have := hnone hb; subst this
+        have := h6 rfl
+        simp only [rOf, kOf]; omega)
+      hno
+    rw [hlen1 hno, ht, tailBlocks]
+    by_cases hc : rOf p m L + minPad p.scheme ≤ p.blocksize
+    · simp only [hc, not_true_eq_false, and_false, if_true, if_false]; omega
+    · simp only [hc, hno, ne_eq, not_false_eq_true, and_self, if_true, if_false]; omega
+
+/-- number of blocks of a padded call, in closed form -/
+theorem count_formula (B K R mp Le : Nat) (hB : 0 < B) (hLe : Le = K * B + R) (hR : R ≤ B) (hpos : 0 < Le → 0 < R)
+    (h0 : Le = 0 → K = 0) (hmp : mp ≤ B) (two : Bool) (htwo : two = true ↔ ¬ R + mp ≤ B) :
+    K + (if two then 2 else 1) = max 1 ((Le + mp + B - 1) / B) := by
+  have e : (Le + mp + B - 1) / B = K + (R + mp + B - 1) / B := by
+    rw [hLe, show K * B + R + mp + B - 1 = (R + mp + B - 1) + K * B by omega, Nat.add_mul_div_right _ _ hB]
+    omega
+  rw [e]
+  have hfin : ∀ q t : Nat, (R + mp + B - 1) / B = q → (if two then 2 else 1) = t → 1 ≤ t → (q = t ∨ (q = 0 ∧ t = 1 ∧ K = 0)) →
+      K + (if two then 2 else 1) = max 1 (K + (R + mp + B - 1) / B) := by
+    intro q t hq ht h1t h
+    rw [hq, ht, Nat.max_def]
+    split <;> omega
+  by_cases h1 : R + mp = 0
+  · have hq : (R + mp + B - 1) / B = 0 := Nat.div_eq_of_lt (by omega)
+    have hK : K = 0 := h0 (by
+      rcases Nat.eq_zero_or_pos Le with h | h
+      · exact h
+      · have := hpos h; omega)
+    have ht : two = false := by
+      cases two with
+      | false => rfl
+      | true => exact absurd (htwo.mp rfl) (by omega)
+    exact hfin 0 1 hq (by rw [ht]; rfl) (by omega) (Or.inr ⟨rfl, rfl, hK⟩)
+  · by_cases h2 : R + mp ≤ B
+    · have hq : (R + mp + B - 1) / B = 1 := Nat.div_eq_of_lt_le (by omega) (by omega)
+      have ht : two = false := by
+        cases two with
+        | false => rfl
+        | true => exact absurd h2 (htwo.mp rfl)
+      exact hfin 1 1 hq (by rw [ht]; rfl) (by omega) (Or.inl rfl)
+    · have hq : (R + mp + B - 1) / B = 2 := Nat.div_eq_of_lt_le (by omega) (by omega)
+      have ht : two = true := htwo.mpr h2
+      exact hfin 2 2 hq (by rw [ht]; rfl) (by omega) (Or.inl rfl)
+
 /-- everything observable about a padded call -/
 theorem run_facts (p : Padder) (hv : Valid p) (st : PadState) (hflag : st.padflag = false) (m : List Nat)
     (hm : Bytes m) (L : Option Nat) (hL : effLen m L ≤ 8 * m.length) (hbg : L ≠ none → BitGranular p.scheme) :
